@@ -725,7 +725,11 @@ class FeatureCheckBase(metaclass=mesonlib.SimpleABC):
         tv = cls.get_target_version(subproject)
         for version in sorted(fv.keys()):
             message = ', '.join(sorted({f"'{i[0]}'" for i in fv[version]}))
-            if cls.check_version(tv, version):
+            # compare the version use() compared: without trailing '.0' components
+            check = version
+            while check.endswith('.0'):
+                check = check[:-2]
+            if cls.check_version(tv, check):
                 notice_str += '\n * {}: {{{}}}'.format(version, message)
             else:
                 warning_str += '\n * {}: {{{}}}'.format(version, message)
